@@ -57,7 +57,7 @@ def coq_case(case, out):
     if out and out[0] == "PANIC":
         o = "[3;0]"
     else:
-        o = "[" + ";".join(out) + "]"
+        o = g.coq_nums(out)
     return "((%s, (%s : table), %s) : ctx * table * bytes)" % (cx, tab, g.coq_bytes(case["data"])), "(%s : list Z)" % o
 
 
@@ -220,7 +220,8 @@ def main():
     for _ in range(2 if quick else 6):
         v5 = rng.random() < 0.5
         h = g.header5(rng) if v5 else g.header34(rng, 4)
-        body = g.rbytes(rng, rng.choice([1000, 4000] if quick else [1000, 4000, 65528, 65531]))
+        n = rng.choice([1000, 4000] if quick else [1000, 4000, 65528, 65531])
+        body = g.rbytes(rng, n) if n <= 4000 else [rng.randrange(256)] * n
         b = h + g.wire_field(rng.choice([g.T_UID, 0x2A, g.T_REFRESP, g.T_REFREQ]), body, v5)
         if v5:
             b += g.wire_field(g.T_DRAFT, g.DRAFT, True)
@@ -259,7 +260,7 @@ def main():
                      "the model gets the genuine AEAD tuples as its oracle table. non-trivial = datagram has a full header of version 3/4/5")
     outs = vplib.correspondence(
         c, "ntp-proto", cases, line_of=line_of, coq_case_of=coq_case,
-        preamble="From V Require Import Model.Packet.\nOpen Scope Z_scope.\n",
+        preamble="From V Require Import Model.Packet.\nOpen Scope Z_scope.\n" + g.REP_DEF,
         checker="mismatches list_eqb run_decode", monitor=monitor, nontrivial=nontrivial,
         key_of=lambda case: (case["ctx"], bytes(case["data"]), repr(case.get("table"))[:2000]),
         shard=60,
